@@ -123,6 +123,49 @@ func vMkEntry(i, class int) vEntry {
 		vFSPut(e.name, src)
 		vParseResult(e.name, f, nil)
 		return e
+	case 14: // a dangling symbolic link whose name ends in .go (e.g. the generated file of a proto that was removed)
+		e.class = 0
+		e.name = base + "dangling.go"
+		vFSSymlink(e.name, "gone/"+base[2:]+".pb.go")
+		return e
+	case 15: // a symbolic link to an annotated file that lives outside the directory
+		val := vInjVal("lnk" + base[2:])
+		src, f := vAnnotatedSrc(val, false)
+		target := "t/" + base[2:] + "target.pb.go"
+		vFSMkdir("t")
+		vFSPut(target, src)
+		vParseResult(target, f, nil)
+		e.class = 4
+		e.name, e.content = base+"link.go", src
+		e.want, _ = vAnnotatedSrc(val, true)
+		vFSSymlink(e.name, target)
+		vParseResult(e.name, f, nil)
+		return e
+	case 16: // empty declaration groups ("type ()", "var ()", "import ()") before an annotated struct
+		pre := "import ()\ntype ()\nvar ()\n"
+		src, f := vBuildSource(pre, []vStructSrc{{name: "A", fields: []vField{{name: "X", typ: "string", hasTag: true, tag: "json:\"x\"", comment: "// @tag valid:\"required\""}}}}, "")
+		want, _ := vBuildSource(pre, []vStructSrc{{name: "A", fields: []vField{{name: "X", typ: "string", hasTag: true, tag: "json:\"x\" valid:\"required\"", comment: "// @tag valid:\"required\""}}}}, "")
+		off := func(sub string) token.Pos { return token.Pos(vIndex(src, sub) + 1) }
+		groups := []ast.Decl{
+			&ast.GenDecl{TokPos: off("import ()"), Tok: token.IMPORT, Lparen: off("import ()") + 7, Rparen: off("import ()") + 8},
+			&ast.GenDecl{TokPos: off("type ()"), Tok: token.TYPE, Lparen: off("type ()") + 5, Rparen: off("type ()") + 6},
+			&ast.GenDecl{TokPos: off("var ()"), Tok: token.VAR, Lparen: off("var ()") + 4, Rparen: off("var ()") + 5},
+		}
+		f.Decls = append(groups, f.Decls...)
+		e.class = 4
+		e.name, e.content, e.want = base+"emptygroups.go", src, want
+		vFSPut(e.name, src)
+		vParseResult(e.name, f, nil)
+		return e
+	case 17: // an annotated file that becomes shorter (the injected value replaces a longer one), with text after the struct
+		post := "\n// trailer that must survive: 0123456789 0123456789\nvar Last = 1\n"
+		src, f := vBuildSource("", []vStructSrc{{name: "A", fields: []vField{{name: "X", typ: "string", hasTag: true, tag: "json:\"x\" valid:\"required,to=1~100,phone\"", comment: "// @tag valid:\"int\""}}}}, post)
+		want, _ := vBuildSource("", []vStructSrc{{name: "A", fields: []vField{{name: "X", typ: "string", hasTag: true, tag: "json:\"x\" valid:\"int\"", comment: "// @tag valid:\"int\""}}}}, post)
+		e.class = 4
+		e.name, e.content, e.want = base+"shrinks.go", src, want
+		vFSPut(e.name, src)
+		vParseResult(e.name, f, nil)
+		return e
 	case 3: // valid, no annotations
 		src, f := vBuildSource("", []vStructSrc{{name: "A", fields: []vField{{name: "X", typ: "string", hasTag: true, tag: "json:\"x\"", comment: "// plain"}, {name: "Y", typ: "int"}}}}, "")
 		e.name, e.content = base+"plain.go", src
@@ -205,7 +248,7 @@ func vCheckEntry(tag string, e vEntry) {
 	}
 }
 
-const vNClasses = 14
+const vNClasses = 18
 
 func H_C19_file() {
 	vSym = true
